@@ -11,7 +11,7 @@ EXPLANATION = ('Two parts. (1) Byte-length cuts: a file of length L < complete l
                'Hence every prefix state is a byte-length cut of a file whose header/table already describe the final footer (or, before the patches, a table whose every stored '
                'array lies beyond the end of the file), and part (1) applies.')
 ASSUMPTIONS = [
-    'write order across functions in run()/run_conversion_loop (run_conversion_loop, then write_headers, then write_hash) is read from the source, not verified; cuts INSIDE a write are '
+    'write order across functions: SeismicFileConverter.run / NumpyConverter.run are under contract (run_conversion_loop, then write_headers, then write_hash, one handle); cuts INSIDE a write are '
     'byte-length cuts (AX-FILE: a write appends its bytes in order)',
     'the stored hash (patched last) reads as zeros from a partial file: outside "samples and headers" and not covered',
     'cropper / re-blocker / exporter reading a partial SOURCE: only through the reader functions above (the re-blocker\'s own raw reads are not covered)',
